@@ -2,10 +2,12 @@
 (* Every recorded execution of the real DataManager / FileManager / YamlInterface (writer threads  *)
 (* run under the driver's cooperative scheduler) must be a behaviour of DataManager.               *)
 (* Logged lines:                                                                                   *)
-(*   save      main called save_all(value of version v) on manager i                               *)
+(*   save      main called save_all(value of version v) on manager i; k = kind of the value: "ok", *)
+(*             "norepr" (holds something the YAML dumper cannot represent), "nocopy" (holds        *)
+(*             something copy.deepcopy cannot copy)                                                *)
 (*   shutdown  machine.thread_stopper.set()                                                        *)
-(*   w         writer i was released from scheduling point `pc` (fault: an OSError was raised      *)
-(*             there) and ran to its next point `npc`                                              *)
+(*   w         writer i was released from scheduling point `pc` (fault "io": an OSError was raised *)
+(*             there, "exc": an exception of another class) and ran to its next point `npc`        *)
 (*   crash     the process died here: the data directory was copied and re-loaded by new managers; *)
 (*             `loaded` are the versions their loaders produced                                    *)
 (*   unwedge   the harness reset a leaked FileManager.is_busy while no writer was saving           *)
@@ -25,7 +27,7 @@ Disk(d) == \A i \in M : file'[i] = d[i]
 Npc(i, npc) == \/ pc'[i] = npc
                \/ fin'[i] /\ ((pc'[i] = "clearDirty" /\ npc \in {"copy", "saveOpen"}) \/ (pc'[i] = "copy" /\ npc = "saveOpen"))
 Step(e) ==
-    \/ e.op = "save" /\ SaveAll(e.i) /\ data'[e.i] = e.v /\ Disk(e.disk) /\ UNCHANGED ended
+    \/ e.op = "save" /\ SaveAll(e.i, e.k) /\ data'[e.i] = e.v /\ Disk(e.disk) /\ UNCHANGED ended
     \/ e.op = "shutdown" /\ Shutdown /\ Disk(e.disk) /\ UNCHANGED ended
     \/ e.op = "w" /\ pc[e.i] = e.pc /\ W(e.i, e.fault) /\ Npc(e.i, e.npc) /\ Disk(e.disk) /\ UNCHANGED ended
     \/ e.op = "crash" /\ Crash /\ (\A i \in M : file[i] = e.loaded[i]) /\ UNCHANGED ended
@@ -35,7 +37,7 @@ Step(e) ==
 TNext == \/ l <= Len(TL) /\ Step(TL[l]) /\ l' = l + 1 /\ UNCHANGED tid
          \* the statement does not say whether the shutdown flush clears the flag / takes a fresh copy:
          \* on that path these two steps may be absent from the real thread
-         \/ \E i \in M : fin[i] /\ (ClearDirty(i) \/ Copy(i)) /\ UNCHANGED <<tid, l, ended>>
+         \/ \E i \in M : fin[i] /\ (ClearDirty(i) \/ Copy(i, "none")) /\ UNCHANGED <<tid, l, ended>>
 TSpec == TInit /\ [][TNext]_tvars
 Reporter == TraceReport(tid, l, Len(TL))
 \* monitors (first pass, Deviations = {})
